@@ -246,6 +246,12 @@ func runC40(c *core.Ctx) {
 		}
 		for i := range reqs {
 			c.Eval(1)
+			if other[i] == "" || first[i] == "" {
+				// not reached before the time budget of one of the two processes ran out
+				c.Exhaustive = false
+				c.Outcome("second-process comparison skipped (budget)")
+				continue
+			}
 			if other[i] != first[i] {
 				c.Violation("code generation differs between two processes: "+reqs[i].name, map[string]any{"this": first[i], "other": other[i]})
 			}
